@@ -328,8 +328,13 @@ class Verifier:
             ob.result, ob.backend = 'refuted', 'z3'
             try:
                 m = s.model()
-                ob.witness = {k: I.model_value(m, v) for k, v in inputs.items()
-                              if not isinstance(v, (FuncV, ClassV))}
+                cur = I.heap
+                I.heap = I.old_heap if I.old_heap is not None else cur
+                try:
+                    ob.witness = {k: I.model_value(m, v) for k, v in inputs.items()
+                                  if not isinstance(v, (FuncV, ClassV))}
+                finally:
+                    I.heap = cur
             except Exception as e:      # pragma: no cover
                 ob.witness = {'error': str(e)}
         else:
